@@ -296,6 +296,8 @@ class _ShaHasher(PasswordHasher):
 
     def hash(self, secret: StrOrBytes, *, salt: StrOrBytes | None = None) -> str:
         salt = as_str(salt) if salt is not None else _gen_salt(16)
+        if len(salt) > 16:
+            raise ValueError("salt too large (sha-crypt allows at most 16 characters)")
 
         sha = _sha_crypt(
             secret=as_bytes(secret),
